@@ -11,6 +11,7 @@ mod header;
 mod ffi;
 mod adapters;
 mod multi;
+mod favor;
 mod ledger;
 mod dict;
 mod recoder;
@@ -19,7 +20,10 @@ mod huff;
 mod metablock;
 mod fragment;
 mod zopfli;
+mod greedy;
 mod rs2lean_diff;
+mod e2e;
+mod window;
 
 fn main() {
     let args = util::parse_args();
@@ -33,6 +37,7 @@ fn main() {
         "ffi" => ffi::run_cmd(&args),
         "adapters" => adapters::run_cmd(&args),
         "multi" => multi::run_cmd(&args),
+        "favor" => favor::run_cmd(&args),
         "ledger" => ledger::run_cmd(&args),
         "dict" => dict::run_cmd(&args),
         "recoder" => recoder::run_cmd(&args),
@@ -41,8 +46,11 @@ fn main() {
         "metablock" => metablock::run_cmd(&args),
         "fragment" => fragment::run_cmd(&args),
         "zopfli" => zopfli::run_cmd(&args),
+        "e2e" => e2e::run_cmd(&args),
+        "greedy" => greedy::run_cmd(&args),
         "concat1" => concat::run_one(&args),
         "rs2lean" => rs2lean_diff::run_cmd(&args),
+        "window" => window::run_cmd(&args),
         other => {
             eprintln!("unknown subcommand {}", other);
             std::process::exit(2);
